@@ -469,6 +469,23 @@ func (solution *pathSolution) Path(hashState hashState) Path {
 	return path
 }
 
+// encodable reports whether the solution fits into a SCION path header: every
+// segment length must fit the 6-bit SegLen field and the total number of hop
+// fields must not exceed scion.MaxHops. Solutions that do not fit would be
+// serialized with truncated segment lengths.
+func (solution *pathSolution) encodable() bool {
+	const maxSegLen = 1<<6 - 1
+	total := 0
+	for _, solEdge := range solution.edges {
+		n := len(solEdge.segment.ASEntries) - solEdge.edge.Shortcut
+		if n > maxSegLen {
+			return false
+		}
+		total += n
+	}
+	return total <= scion.MaxHops
+}
+
 func getAuth(a *seg.ASEntry) []byte {
 	if a.UnsignedExtensions.EpicDetached == nil {
 		return nil
